@@ -9,7 +9,8 @@
  *   N <gap> <sess> <CON|NON> <tokbyte> [F] like A, but <gap> ms after the previous exchange on <sess> concluded
  *   R <tok> <c> <kind>+<d>[+<d>..] [..]    reaction of the peer to the c-th copy (0-based) it receives of the
  *                                          request with token byte <tok>; default: pig+0 (CON), sepnon+0 (NON)
- *          kinds: ack rst pig sepcon sepnon none ; each +<d> sends one copy after d ms (same bytes)
+ *          kinds: ack rst pig sepcon sepnon none, xack xrst (ACK/RST with this message id sent by the OTHER peer
+ *          to the other session) ; each +<d> sends one copy after d ms (same bytes)
  *   L <j>                                  j-th datagram emitted by the client is lost
  *   D <j> <d1> <d2>                        j-th datagram emitted by the client arrives twice (delays d1,d2)
  *   Y <j> <d>                              j-th datagram emitted by the client is delayed by d ms
@@ -180,8 +181,13 @@ on_peer_rx(const sim_dgram_t *dg) {
     uint8_t b[64];
     size_t n = 0;
     const char *kd = r->a[i].kind;
+    int cross = 0;
     if (!strcmp(kd, "none"))
       continue;
+    if (kd[0] == 'x' && cs.nsess > 1) {
+      cross = 1;
+      kd++;
+    }
     if (!strcmp(kd, "ack")) {
       b[0] = 0x60; b[1] = 0; b[2] = mid >> 8; b[3] = mid & 255; n = 4;
     } else if (!strcmp(kd, "rst")) {
@@ -206,8 +212,17 @@ on_peer_rx(const sim_dgram_t *dg) {
       memcpy(b + 4, d + 4, tkl); n = 4 + tkl; b[n++] = 0xff; b[n++] = 's';
     } else
       continue;
-    for (j = 0; j < r->a[i].nd; j++)
-      peer_send(dg, b, n, r->a[i].d[j], kd);
+    for (j = 0; j < r->a[i].nd; j++) {
+      if (cross) {
+        /* same bytes, but from the other peer to the other session's socket */
+        int me = sim_port(&dg->dst) - 40001, other = (me + 1) % cs.nsess;
+        sim_dgram_t x = *dg;
+        x.dst = peer_addr[other];
+        x.src = sess[other]->addr_info.local;
+        peer_send(&x, b, n, r->a[i].d[j], kd);
+      } else
+        peer_send(dg, b, n, r->a[i].d[j], kd);
+    }
   }
 }
 
